@@ -162,7 +162,14 @@ def make_terminal(ec, spec, index):
                 idx = (0x6000 if direction == "in" else 0x7000) + 0x10 * k
                 ns[v["name"]] = ProcessDesc(idx, 1)
                 pdos[idx, 1] = (sm, posmap[v["name"]], v["size"])
-    cls = type(f"GenTerminal{index}", (EBPFTerminal,), ns)
+    if spec.get("aerotech"):
+        # Aerotech style: the terminal builds its own write datagrams
+        from ebpfcat.terminals import AerotechBase
+        ns["in_size"] = max(1, in_sz)
+        ns["out_size"] = max(1, out_sz)
+        cls = type(f"GenAerotech{index}", (AerotechBase,), ns)
+    else:
+        cls = type(f"GenTerminal{index}", (EBPFTerminal,), ns)
     t = cls(ec)
     t.name = f"T{index}"
     t.position = spec["position"]
